@@ -917,6 +917,7 @@ pub async fn drive(case: &Case) -> Outcome {
     }
     if case.qlog == crate::QlogMode::Capture || case.qlog == crate::QlogMode::CaptureRaw {
         crate::oracles::check_packet_roundtrip(&mut out, &captured);
+        crate::oracles::check_pn_monotone(&mut out, &captured);
         crate::oracles::check_amplification(&mut out, &net);
         crate::oracles::check_close_qlog(&mut out, &captured);
     }
